@@ -123,8 +123,8 @@ def getHeader (s : State) (dir : Direction) (t : PDUType) (len : Nat) : State ×
     ({ s with header := some h }, h)
 
 def sendPayload (s : State) (p : Payload) : State :=
-  let (s, h) := getHeader s .ToSender .FileDirective (p.len s.cfg.fss)
-  { s with sent := some { header := h, payload := p } }
+  let r := getHeader s .ToSender .FileDirective (p.len s.cfg.fss)
+  { r.1 with sent := some { header := r.2, payload := p } }
 
 def getProgress (s : State) : Nat := s.received
 
@@ -251,20 +251,24 @@ def maxNakNum (fss : FileSizeFlag) (payloadLen : Nat) : Option Nat :=
 def listMin (l : List Nat) (d : Nat) : Nat := match l with | [] => d | x :: xs => xs.foldl min x
 def listMax (l : List Nat) (d : Nat) : Nat := match l with | [] => d | x :: xs => xs.foldl max x
 
+/-- the timer part of `send_naks`: returns the state and whether a fault handler stopped the NAK -/
+def sendNaksTimer (s : State) (now : Nat) : State × Bool :=
+  if s.nakReceived == s.received then
+    let r := s.timer.nak.limitReached now
+    let s := { s with timer := { s.timer with nak := r.1 } }
+    if r.2 then
+      let f := handleFault s .NakLimitReached now
+      if !f.2 then (f.1, true)
+      else ({ f.1 with timer := { f.1.timer with nak := f.1.timer.nak.restart now } }, false)
+    else ({ s with timer := { s.timer with nak := s.timer.nak.restart now } }, false)
+  else
+    ({ s with timer := { s.timer with nak := s.timer.nak.reset now }, nakReceived := s.received }, false)
+
 /-- `send_naks` -/
 def sendNaks (s : State) (now : Nat) : State :=
-  let (s, stop) :=
-    if s.nakReceived == s.received then
-      let (c, lim) := s.timer.nak.limitReached now
-      let s := { s with timer := { s.timer with nak := c } }
-      if lim then
-        let (s, cont) := handleFault s .NakLimitReached now
-        if !cont then (s, true)
-        else ({ s with timer := { s.timer with nak := s.timer.nak.restart now } }, false)
-      else ({ s with timer := { s.timer with nak := s.timer.nak.restart now } }, false)
-    else
-      ({ s with timer := { s.timer with nak := s.timer.nak.reset now }, nakReceived := s.received }, false)
-  if stop then s else
+  let r := sendNaksTimer s now
+  if r.2 then r.1 else
+  let s := r.1
   match maxNakNum s.cfg.fss s.cfg.seg with
   | none => { s with panicked := true }
   | some m =>
@@ -330,37 +334,39 @@ def finalizeFile (s : State) : Option State :=
     | none => none
     | some fs' => some { s with fs := fs', tempFile := none }
 
+/-- the file part of `finalize_receive`: checksum verification and copy to the destination -/
+def finalizeFilePart (s : State) (now : Nat) : State × Bool :=
+  if isFileTransfer s then
+    let ck := s.checksum.getD 0
+    let ct := match s.md with | some m => m.cksumType | none => .Null
+    -- verify_checksum opens the staging file (creating an empty one if none exists yet)
+    let s := { s with tempFile := some (s.tempFile.getD []) }
+    let okck := fileChecksum ct (s.tempFile.getD []) == ck
+    let f := if !okck then handleFault s .FileChecksumFailure now else (s, true)
+    if !f.2 then (f.1, false)
+    else match finalizeFile f.1 with
+      | some s' => ({ s' with fileStatus := .Retained }, true)
+      | none => ({ f.1 with fileStatus := .FileStoreRejection }, true)
+  else ({ s with fileStatus := .Unreported }, true)
+
 /-- `finalize_receive`; returns false when a fault handler stopped the finalisation -/
 def finalizeReceive (s : State) (now : Nat) : State × Bool :=
-  let s := { s with delivery := .Complete }
-  let (s, go) :=
-    if isFileTransfer s then
-      let ck := s.checksum.getD 0
-      let ct := match s.md with | some m => m.cksumType | none => .Null
-      -- verify_checksum opens the staging file (creating an empty one if none exists yet)
-      let s := { s with tempFile := some (s.tempFile.getD []) }
-      let okck := fileChecksum ct (s.tempFile.getD []) == ck
-      let (s, go) := if !okck then handleFault s .FileChecksumFailure now else (s, true)
-      if !go then (s, false)
-      else match finalizeFile s with
-        | some s' => ({ s' with fileStatus := .Retained }, true)
-        | none => ({ s with fileStatus := .FileStoreRejection }, true)
-    else ({ s with fileStatus := .Unreported }, true)
-  if !go then (s, false) else
-  let (s, go) :=
-    if s.fileStatus == .FileStoreRejection then handleFault s .FileStoreRejection now else (s, true)
-  if !go then (s, false) else
+  let a := finalizeFilePart { s with delivery := .Complete } now
+  if !a.2 then (a.1, false) else
+  let b := if a.1.fileStatus == .FileStoreRejection then handleFault a.1 .FileStoreRejection now else (a.1, true)
+  if !b.2 then (b.1, false) else
+  let s := b.1
   let reqs := match s.md with | some m => m.requests | none => []
-  let (resps, fs') := Fs.runRequests s.fs false reqs
-  let s := { s with responses := resps, fs := fs' }
+  let rr := Fs.runRequests s.fs false reqs
+  let s := { s with responses := rr.1, fs := rr.2 }
   (emit s (.finished s.condition s.delivery s.fileStatus s.state s.status s.responses), true)
 
 /-- `check_finished` -/
 def checkFinished (s : State) (now : Nat) : State :=
   if s.recvState == .ReceiveData && s.md.isSome && eofReceived s && !(isFileTransfer s && hasNaks s) then
-    let (s, go) := finalizeReceive s now
-    if !go then s else
-    let s := prepareFinished { s with recvState := .Finished } none
+    let r := finalizeReceive s now
+    if !r.2 then r.1 else
+    let s := prepareFinished { r.1 with recvState := .Finished } none
     { s with timer := { s.timer with nak := s.timer.nak.pause now } }
   else s
 
@@ -388,9 +394,9 @@ def processPdu (s : State) (p : Pdu) (now : Nat) : State × Res :=
       let s := emit s (.fileSegmentRecv off d.length)
       let s :=
         if s.cfg.immediate && !eofReceived s then
-          let (c, occ) := s.timer.nak.timeoutOccurred now
-          let s := { s with timer := { s.timer with nak := c } }
-          if occ then
+          let r := s.timer.nak.timeoutOccurred now
+          let s := { s with timer := { s.timer with nak := r.1 } }
+          if r.2 then
             let s := { s with naks := getAllNaks s }
             { s with timer := { s.timer with nak := s.timer.nak.restart now } }
           else if off > prevEnd then
@@ -446,12 +452,13 @@ def processPdu (s : State) (p : Pdu) (now : Nat) : State × Res :=
       else if s.condition == .NoError then
         let s := checkFileSize s e.fileSize now
         let s := { s with fileSize := some e.fileSize }
-        let (s, go) :=
+        let f :=
           if s.md.isNone || (isFileTransfer s && hasNaks s) then handleFault s .CheckLimitReached now
           else (s, true)
-        if !go then (s, .ok) else
-        let (s, go) := finalizeReceive s now
-        if !go then (s, .ok) else
+        if !f.2 then (f.1, .ok) else
+        let g := finalizeReceive f.1 now
+        if !g.2 then (g.1, .ok) else
+        let s := g.1
         if closureRequested s then
           let s := { s with recvState := .Finished }
           (prepareFinished s (if s.condition == .NoError then none else some s.cfg.dst), .ok)
@@ -468,63 +475,62 @@ def processPdu (s : State) (p : Pdu) (now : Nat) : State × Res :=
 def expiredPrefix (now : Nat) : List (Counter × Nat × Nat) → List (Counter × Nat × Nat) × Nat
   | [] => ([], 0)
   | (c, a, b) :: rest =>
-    let (c', occ) := c.timeoutOccurred now
-    if occ then
+    let t := c.timeoutOccurred now
+    if t.2 then
       let r := expiredPrefix now rest
-      ((c', a, b) :: r.1, r.2 + 1)
-    else ((c', a, b) :: rest, 0)
+      ((t.1, a, b) :: r.1, r.2 + 1)
+    else ((t.1, a, b) :: rest, 0)
+
+/-- the delayed-NAK part of `handle_timeout` -/
+def handleDelayed (s : State) (now : Nat) : State :=
+  let e := expiredPrefix now s.delayed
+  let s := { s with delayed := e.1 }
+  if e.2 > 0 then
+    let s := if s.md.isNone then { s with naks := s.naks ++ [(0, 0)] } else s
+    let fired := s.delayed.take e.2
+    let s := { s with delayed := s.delayed.drop e.2 }
+    { s with naks := s.naks ++ fired.flatMap (fun x => Seg.gaps s.segs x.2.1 x.2.2) }
+  else s
+
+/-- the inactivity part of `handle_timeout`; false = the caller returns -/
+def handleInactivity (s : State) (now : Nat) : State × Bool :=
+  let r := s.timer.inactivity.limitReached now
+  let s := { s with timer := { s.timer with inactivity := r.1 } }
+  if r.2 then
+    if s.recvState == .Cancelled then (abandon s now, false)
+    else handleFault s .InactivityDetected now
+  else
+    let o := s.timer.inactivity.timeoutOccurred now
+    let s := { s with timer := { s.timer with inactivity := o.1 } }
+    if o.2 then ({ s with timer := { s.timer with inactivity := s.timer.inactivity.restart now } }, true)
+    else (s, true)
+
+/-- the positive-ACK part of `handle_timeout` in the Finished / Cancelled states -/
+def handleAckTimer (s : State) (now : Nat) (cancelled : Bool) : State :=
+  let r := s.timer.ack.limitReached now
+  let s := { s with timer := { s.timer with ack := r.1 } }
+  if r.2 then (if cancelled then abandon s now else (handleFault s .PositiveLimitReached now).1)
+  else
+    let o := s.timer.ack.timeoutOccurred now
+    let s := { s with timer := { s.timer with ack := o.1 } }
+    if o.2 then
+      let s := setFinishedFlag s true
+      { s with timer := { s.timer with ack := s.timer.ack.restart now } }
+    else s
 
 /-- `handle_timeout` -/
 def handleTimeout (s : State) (now : Nat) : State :=
   if s.state == .Suspended then s else
-  let (dl, idx) := expiredPrefix now s.delayed
-  let s := { s with delayed := dl }
-  let s :=
-    if idx > 0 then
-      let s := if s.md.isNone then { s with naks := s.naks ++ [(0, 0)] } else s
-      let fired := s.delayed.take idx
-      let s := { s with delayed := s.delayed.drop idx }
-      fired.foldl (fun s e => { s with naks := s.naks ++ Seg.gaps s.segs e.2.1 e.2.2 }) s
-    else s
-  let (c, lim) := s.timer.inactivity.limitReached now
-  let s := { s with timer := { s.timer with inactivity := c } }
-  let (s, go) :=
-    if lim then
-      if s.recvState == .Cancelled then (abandon s now, false)
-      else handleFault s .InactivityDetected now
-    else
-      let (c, occ) := s.timer.inactivity.timeoutOccurred now
-      let s := { s with timer := { s.timer with inactivity := c } }
-      if occ then ({ s with timer := { s.timer with inactivity := s.timer.inactivity.restart now } }, true)
-      else (s, true)
-  if !go then s else
+  let i := handleInactivity (handleDelayed s now) now
+  if !i.2 then i.1 else
+  let s := i.1
   match s.recvState with
   | .ReceiveData =>
-    let (c, occ) := s.timer.nak.timeoutOccurred now
-    let s := { s with timer := { s.timer with nak := c } }
-    if occ then { s with naks := getAllNaks s } else s
-  | .Finished =>
-    let (c, lim) := s.timer.ack.limitReached now
-    let s := { s with timer := { s.timer with ack := c } }
-    if lim then (handleFault s .PositiveLimitReached now).1
-    else
-      let (c, occ) := s.timer.ack.timeoutOccurred now
-      let s := { s with timer := { s.timer with ack := c } }
-      if occ then
-        let s := setFinishedFlag s true
-        { s with timer := { s.timer with ack := s.timer.ack.restart now } }
-      else s
-  | .Cancelled =>
-    let (c, lim) := s.timer.ack.limitReached now
-    let s := { s with timer := { s.timer with ack := c } }
-    if lim then abandon s now
-    else
-      let (c, occ) := s.timer.ack.timeoutOccurred now
-      let s := { s with timer := { s.timer with ack := c } }
-      if occ then
-        let s := setFinishedFlag s true
-        { s with timer := { s.timer with ack := s.timer.ack.restart now } }
-      else s
+    let o := s.timer.nak.timeoutOccurred now
+    let s := { s with timer := { s.timer with nak := o.1 } }
+    if o.2 then { s with naks := getAllNaks s } else s
+  | .Finished => handleAckTimer s now false
+  | .Cancelled => handleAckTimer s now true
 
 /-- `send_report` -/
 def sendReport (s : State) : State := emit s (generateReport s)
